@@ -1694,7 +1694,27 @@ func c19R3(c *Ctx, p *Prog) {
 				done++
 			}
 		}
+		tailMode := false
+		if h.Signature.Results().Len() == 1 {
+			_, tailMode = h.Signature.Results().At(0).Type().Underlying().(*types.Slice)
+		}
 		for _, r := range c19Returns(leaf) {
+			if tailMode {
+				// the helper returns the unconsumed tail: a leaf must return floats[1:]
+				sl, isSl := r.Results[0].(*ssa.Slice)
+				k, isK := int64(0), false
+				if isSl && sl.Low != nil {
+					k, isK = constOf(sl.Low)
+				}
+				switch {
+				case !isSl || sl.X != fl || sl.High != nil || sl.Max != nil || !isK:
+					c.Undec(rule, sv.key("leaf.count"), r.Pos(), "%s: the Float64 case does not return floats[const:] of its slice parameter", fnName(h))
+				default:
+					c.Check(k == 1, rule, sv.key("leaf.count"), r.Pos(), "%s: a Float64 leaf returns the tail after %d consumed element(s) (must be 1, as ToVector produces one per leaf)", fnName(h), k)
+					done++
+				}
+				continue
+			}
 			if k, isK := constOf(r.Results[0]); !isK {
 				c.Undec(rule, sv.key("leaf.count"), r.Pos(), "%s: the Float64 case returns a non-constant count", fnName(h))
 			} else {
@@ -1706,6 +1726,17 @@ func c19R3(c *Ctx, p *Prog) {
 		if rec != nil {
 			sv.advance(rec.Call.Args[fIdx], rec, func(x ssa.Value) bool { return x == fl }, "advance.helper", &done)
 			for _, r := range c19Returns(c19LeafBlocks(h, v, kArr)) {
+				if tailMode {
+					// the array case returns the tail left by its last recursive call (or its input for a zero-length array)
+					isIn := func(x ssa.Value) bool { return x == fl }
+					if r.Results[0] == ssa.Value(rec) || c19AccOK(r.Results[0], rec, isIn) {
+						c.Ok(rule, sv.key("count.helper"), r.Pos(), "%s: the array case returns the tail its recursive calls left", fnName(h))
+						done++
+					} else {
+						c.Undec(rule, sv.key("count.helper"), r.Pos(), "%s: the array case does not return the tail threaded through its recursive calls", fnName(h))
+					}
+					continue
+				}
 				_, leaves := c19PhiClosure(r.Results[0])
 				okSum := len(leaves) > 0
 				for _, l := range leaves {
@@ -1909,6 +1940,33 @@ func c19ValueOf(in ssa.Instruction) ssa.Value {
 // advance: slice F passed to call is loop-carried and advanced by exactly call's result.
 func (t *c19Trav) advance(F ssa.Value, call *ssa.Call, isInit func(ssa.Value) bool, role string, done *int) {
 	c, rule := t.c, t.rule
+	// tail form: the helper returns the unconsumed tail, which replaces the remaining vector
+	if _, isTail := call.Type().Underlying().(*types.Slice); isTail {
+		okTail := c19AccOK(F, call, isInit)
+		if ld, ok := F.(*ssa.UnOp); ok && !okTail && ld.Op == token.MUL {
+			if cell := c19Cell(ld.X); cell != nil {
+				repl, inits, other := 0, 0, 0
+				for _, st := range c19CellStores(cell) {
+					switch {
+					case st.Val == ssa.Value(call) && instrDominates(call, st) && !c19StoreBetween(cell, ld, call):
+						repl++
+					case isInit(st.Val) && st.Parent() != call.Parent():
+						inits++
+					default:
+						other++
+					}
+				}
+				okTail = repl == 1 && inits == 1 && other == 0
+			}
+		}
+		if okTail {
+			c.Ok(rule, t.key(role), call.Pos(), "the remaining vector starts as the whole input and is replaced by the unconsumed tail %s returns", call.Call.Value.Name())
+			*done++
+		} else {
+			c.Undec(rule, t.key(role), call.Pos(), "%s returns a slice, but the remaining vector is not threaded through it (next input = previous result)", call.Call.Value.Name())
+		}
+		return
+	}
 	// offset form: base[used:] with used = 0 + Σ counts returned
 	if sl, ok := F.(*ssa.Slice); ok && sl.High == nil && sl.Max == nil && sl.Low != nil && isInit(sl.X) {
 		_, ls := c19PhiClosure(sl.Low)
@@ -3344,6 +3402,12 @@ func init() {
 			New:   "\tfor field := range targetFields(reflect.ValueOf(unWrap), targets) {\n\t\tfloats := getFieldFloats(field)\n\n\t\tresult.data = append(result.data, floats...)\n\t}\n",
 			File2: vec, Old2: "func getFieldFloats(", New2: "func targetFields(structV reflect.Value, targets []string) iter.Seq[reflect.Value] {\n\tstructT := structV.Type()\n\n\treturn func(yield func(reflect.Value) bool) {\n\t\tfor i := structT.NumField() - 1; i >= 0; i-- {\n\t\t\tif !slices.Contains(targets, structT.Field(i).Name) {\n\t\t\t\tcontinue\n\t\t\t}\n\t\t\tif !yield(structV.Field(i)) {\n\t\t\t\treturn\n\t\t\t}\n\t\t}\n\t}\n}\n\nfunc getFieldFloats(",
 			Expect: "C19.R3/ToVector#field.order"},
+		Mutant{Name: "C19.R3-tail-returning-leaf-skips-one", Prop: "C19", File: vec,
+			Old:   "\t\t\tnumUsed := setFieldFloats(structV.Field(i), floats)\n\n\t\t\tfloats = floats[numUsed:]\n",
+			New:   "\t\t\tfloats = setFieldFloats(structV.Field(i), floats)\n",
+			File2: vec, Old2: "func setFieldFloats(dst reflect.Value, floats []float64) int {\n\tswitch dst.Kind() {\n\tcase reflect.Array:\n\t\tif dst.Len() > len(floats) {\n\t\t\tpanic(fmt.Sprintf(\"array length mismatch %d != %d\", len(floats), dst.Len()))\n\t\t}\n\n\t\tnumUsed := 0\n\t\tfor i := range dst.Len() {\n\t\t\trec := setFieldFloats(dst.Index(i), floats)\n\n\t\t\tfloats = floats[rec:]\n\t\t\tnumUsed += rec\n\t\t}\n\t\treturn numUsed\n\n\tcase reflect.Float64:\n\t\tif len(floats) < 1 {\n\t\t\tpanic(\"array empty\")\n\t\t}\n\t\tdst.SetFloat(floats[0])\n\n\t\treturn 1\n\n\tdefault:\n\t\tpanic(fmt.Sprintf(\"invalid kind %v\", dst.Kind()))\n\t}\n}\n",
+			New2:   "func setFieldFloats(dst reflect.Value, floats []float64) []float64 {\n\tswitch dst.Kind() {\n\tcase reflect.Array:\n\t\tif dst.Len() > len(floats) {\n\t\t\tpanic(fmt.Sprintf(\"array length mismatch %d != %d\", len(floats), dst.Len()))\n\t\t}\n\n\t\tfor i := range dst.Len() {\n\t\t\tfloats = setFieldFloats(dst.Index(i), floats)\n\t\t}\n\t\treturn floats\n\n\tcase reflect.Float64:\n\t\tif len(floats) < 2 {\n\t\t\tpanic(\"array empty\")\n\t\t}\n\t\tdst.SetFloat(floats[0])\n\n\t\treturn floats[2:]\n\n\tdefault:\n\t\tpanic(fmt.Sprintf(\"invalid kind %v\", dst.Kind()))\n\t}\n}\n",
+			Expect: "C19.R3/SetVector#leaf.count"},
 		Mutant{Name: "C19.R4-target-typo", Prop: "C19", File: "tools/tuner/tuning/tuning.go", Quick: true,
 			Old: "\"MobilityKnight\", \"MobilityBishop\", \"MobilityRook\",", New: "\"MobilityKnight\", \"MobilityBishops\", \"MobilityRook\",",
 			Expect: "C19.R4/target:MobilityBishops"},
